@@ -119,27 +119,54 @@ def run(ctx):
     tr = A.Resolver(tg)
     tc = A.Conds(tg, tr)
     table = {}
+    def is_qlen(x):
+        px = A.peel(x)
+        if px[0] == "call" and px[1].endswith("::len") and px[2]:
+            return "param1.questions" in (A.path_str(px[2][0]) or A.show(px[2][0]))
+        if px[0] == "un" and px[1] == "PtrMetadata":
+            return "param1.questions" in A.show(px[2])
+        return False
+    def len_ok(fc, n):
+        """truth of a fact about questions.len() when the length is n (None: the fact is about something else)"""
+        if fc[0] == "call" and fc[1].endswith("::is_empty") and fc[2] and "param1.questions" in (A.path_str(fc[2][0]) or A.show(fc[2][0])):
+            return (n == 0) == fc[3]
+        if fc[0] == "cmp":
+            for op, x, y in ((fc[1], fc[2], fc[3]), (A.SWAP[fc[1]], fc[3], fc[2])):
+                py = A.peel(y)
+                if is_qlen(x) and py[0] == "const" and isinstance(py[2], int):
+                    k = py[2]
+                    return {"Eq": n == k, "Ne": n != k, "Lt": n < k, "Le": n <= k, "Gt": n > k, "Ge": n >= k}[op]
+        if fc[0] in ("inteq", "intne") and is_qlen(fc[1]):
+            return (n == fc[2]) == (fc[0] == "inteq")
+        return None
+    def first_question(x):
+        px = A.peel(x)
+        if bool(Call("index", Path("param1.questions"), Konst(0))(x)):
+            return True
+        if px[0] == "index" and "param1.questions" in A.show(px[1]):
+            ie = A.peel(px[2])
+            return ie[0] == "const" and ie[2] == 0
+        return False
     for b, e in A.return_exprs(tg, tr):
         facts = tc.facts_on_all_paths(b)
-        empty = [fc[3] for fc in facts if fc[0] == "call" and fc[1].endswith("Vec::<T, A>::is_empty") and A.path_str(fc[2][0]) == "param1.questions"]
-        one = [fc[1] for fc in facts if fc[0] == "cmp" and is_const(fc[3], 1) and bool(Call("Vec::<T, A>::len", Path("param1.questions"))(fc[2]))]
+        lens = [n for n in (0, 1, 2, 3) if all(len_ok(fc, n) is not False for fc in facts)]
         unk = [fc[3] for fc in facts if fc[0] == "call" and fc[1] == T + "Question::is_unknown"]
         pe = A.peel(e)
-        if empty == [True]:
+        if lens == [0]:
             key = "0"
-        elif one == ["Eq"] and unk == [True]:
+        elif lens == [1] and unk == [True]:
             key = "1-unknown"
-        elif one == ["Eq"] and unk == [False]:
+        elif lens == [1] and (unk == [False] or not unk):
             key = "1-known"
-        elif one == ["Ne"]:
+        elif lens == [2, 3]:
             key = "many"
         else:
-            key = "?"
+            key = "?%s" % lens
         if pe[0] == "agg" and pe[2] == "Ok":
             inner = A.peel(dict(pe[3])["0"])
             if inner[0] == "agg" and inner[2] == "None":
                 table[key] = "no-question"
-            elif inner[0] == "agg" and inner[2] == "Some" and bool(Call("index", Path("param1.questions"), Konst(0))(dict(inner[3])["0"])):
+            elif inner[0] == "agg" and inner[2] == "Some" and first_question(dict(inner[3])["0"]):
                 table[key] = "question[0]"
             else:
                 table[key] = A.show(e)
@@ -180,7 +207,8 @@ def run(ctx):
         defs = []
         if pl is not None and A.is_plain_local(pl):
             for d in rb.defs().get(pl["l"], []):
-                defs.append((d[0], A.peel(rbr._def_expr(d, 0))))
+                if d[2] != "partial":
+                    defs.extend((b_, A.peel(e_)) for b_, e_ in A.value_sources(rb, rbr, d))     # through `let is_recursive = ..;`
         consts = [e for _, e in defs if e[0] == "const"]
         vals = [(b, e) for b, e in defs if e[0] != "const"]
         ok = len(defs) == 2 and len(consts) == 1 and consts[0][2] is False and len(vals) == 1 and A.path_str(vals[0][1]) == "_%d.header.recursion_available" % resp
@@ -324,7 +352,7 @@ def run(ctx):
             a = A.peel(a)
             if a[0] == "const":
                 srcs.append(("const", a[2]))
-            elif a[0] == "field" and a[1][0] == "downcast" and a[1][2] == "Ok" and bool(Call("try_into", Call("len", Path("^bytes")))(a[1][1])):
+            elif a[0] == "field" and a[1][0] == "downcast" and a[1][2] == "Ok" and bool(A.Checked(Call("len", Path("^bytes")))(a[1][1])):
                 srcs.append(("len",))
             else:
                 srcs.append(("?", A.show(a)))
@@ -463,7 +491,7 @@ def run(ctx):
     covered = {f.key for f in P.reach_set(prog, ["dns_resolver::resolve"])}
     roots = ["resolved::listen_udp_task", "resolved::listen_tcp_task", "resolved::handle_raw_message", "resolved::prune_cache_task", "resolved::reload_task"]
     sfns = [f for f in P.reach_set(prog, roots) if not f.derived and f.key not in covered]
-    ctx.floor("C09.9", "server-side functions examined for panic sites", len(sfns), 90)
+    ctx.floor("C09.9", "server-side functions examined for panic sites", len(sfns), 60)
     base = panicjust.make(prog, state)
 
     def sjust(f, res, pv, b, kind, t):
